@@ -280,6 +280,12 @@ func (s *stream) IsOpen() bool {
 }
 
 func (s *stream) Rebalance() {
+	if s.balancing && s.rebalanceTimer == nil {
+		// the very first rebalance is still closing the stream; it arms the timer afterwards
+		logger.Log.Info("rebalance already in progress")
+		return
+	}
+
 	if s.balancing && s.rebalanceTimer != nil {
 		// Is rebalance timer triggered already
 		if s.rebalanceTimer.Stop() {
